@@ -378,3 +378,126 @@ pub fn a_program_lines(f: &ast::SourceFile) -> Vec<String> {
 pub fn stmt_kind_name(s: &ast::Stmt) -> String {
     format!("{:?}", s.syntax().kind())
 }
+
+/// Redundant accessors of the typed AST must agree with each other on a diagnostic-free tree:
+/// the block/single-statement views of if/while/for bodies, `loop_body`, the operand and operator
+/// views of binary and prefix expressions, the base of an index expression, the gate-call name.
+/// Returns (which, description) for every disagreement.
+pub fn accessor_disagreements(root: &oq3_syntax::SyntaxNode) -> Vec<(String, String)> {
+    use ast::HasLoopBody;
+    let mut out: Vec<(String, String)> = vec![];
+    let same = |a: Option<&oq3_syntax::SyntaxNode>, b: Option<&oq3_syntax::SyntaxNode>| match (a, b) {
+        (Some(x), Some(y)) => x.text_range() == y.text_range() && x.kind() == y.kind(),
+        (None, None) => true,
+        _ => false,
+    };
+    for node in root.descendants() {
+        let text = || node.text().to_string().chars().take(80).collect::<String>();
+        if let Some(i) = ast::IfStmt::cast(node.clone()) {
+            if i.condition().is_none() {
+                continue;
+            }
+            let (tb, ts) = match i.true_body_block_or_stmt() {
+                BlockOrStmt::BlockExpr(b) => (Some(b.syntax().clone()), None),
+                BlockOrStmt::Stmt(s) => (None, Some(s.syntax().clone())),
+            };
+            if !same(i.then_branch_block().as_ref().map(|b| b.syntax()), tb.as_ref()) {
+                out.push(("if:then_branch_block".into(), text()));
+            }
+            if !same(i.then_branch_stmt().as_ref().map(|b| b.syntax()), ts.as_ref()) {
+                out.push(("if:then_branch_stmt".into(), text()));
+            }
+            let (eb, es) = match i.false_body_block_or_stmt() {
+                Some(BlockOrStmt::BlockExpr(b)) => (Some(b.syntax().clone()), None),
+                Some(BlockOrStmt::Stmt(s)) => (None, Some(s.syntax().clone())),
+                None => (None, None),
+            };
+            if !same(i.else_branch_block().as_ref().map(|b| b.syntax()), eb.as_ref()) {
+                out.push(("if:else_branch_block".into(), text()));
+            }
+            if !same(i.else_branch_stmt().as_ref().map(|b| b.syntax()), es.as_ref()) {
+                out.push(("if:else_branch_stmt".into(), text()));
+            }
+            if i.else_token().is_some() != i.false_body_block_or_stmt().is_some() {
+                out.push(("if:else-token-vs-false-body".into(), text()));
+            }
+        } else if let Some(w) = ast::WhileStmt::cast(node.clone()) {
+            let (b, s) = match w.block_or_stmt() {
+                BlockOrStmt::BlockExpr(b) => (Some(b.syntax().clone()), None),
+                BlockOrStmt::Stmt(s) => (None, Some(s.syntax().clone())),
+            };
+            if !same(w.body().as_ref().map(|b| b.syntax()), b.as_ref()) {
+                out.push(("while:body".into(), text()));
+            }
+            if !same(w.stmt().as_ref().map(|b| b.syntax()), s.as_ref()) {
+                out.push(("while:stmt".into(), text()));
+            }
+            if b.is_some() && !same(w.loop_body().as_ref().map(|b| b.syntax()), b.as_ref()) {
+                out.push(("while:loop_body".into(), text()));
+            }
+        } else if let Some(f) = ast::ForStmt::cast(node.clone()) {
+            if let BlockOrStmt::BlockExpr(b) = f.block_or_stmt() {
+                if !same(f.loop_body().as_ref().map(|x| x.syntax()), Some(b.syntax())) {
+                    out.push(("for:loop_body".into(), text()));
+                }
+                if !same(f.body().as_ref().map(|x| x.syntax()), Some(b.syntax())) {
+                    out.push(("for:body".into(), text()));
+                }
+            }
+        } else if let Some(b) = ast::BinExpr::cast(node.clone()) {
+            let (l, r) = b.sub_exprs();
+            if !same(l.as_ref().map(|x| x.syntax()), b.lhs().as_ref().map(|x| x.syntax())) {
+                out.push(("bin:sub_exprs.0-vs-lhs".into(), text()));
+            }
+            if !same(r.as_ref().map(|x| x.syntax()), b.rhs().as_ref().map(|x| x.syntax())) {
+                out.push(("bin:sub_exprs.1-vs-rhs".into(), text()));
+            }
+            match (b.op_token(), b.op_kind(), b.op_details()) {
+                (Some(t), Some(k), Some((t2, k2))) => {
+                    if t.text() != k.to_string() || t2.text_range() != t.text_range() || k2 != k {
+                        out.push(("bin:op_token-vs-op_kind".into(), format!("{} vs {k}: {}", t.text(), text())));
+                    }
+                    // the operator token sits between the operands
+                    if let (Some(l), Some(r)) = (b.lhs(), b.rhs()) {
+                        if !(l.syntax().text_range().end() <= t.text_range().start() && t.text_range().end() <= r.syntax().text_range().start()) {
+                            out.push(("bin:operator-not-between-operands".into(), text()));
+                        }
+                    }
+                }
+                (None, None, None) => {}
+                _ => out.push(("bin:op-accessors-partial".into(), text())),
+            }
+        } else if let Some(p) = ast::PrefixExpr::cast(node.clone()) {
+            match (p.op_token(), p.op_kind()) {
+                (Some(t), Some(k)) => {
+                    let want = match k {
+                        ast::UnaryOp::Neg => "-",
+                        ast::UnaryOp::LogicNot => "!",
+                        ast::UnaryOp::Not => "~",
+                    };
+                    if t.text() != want {
+                        out.push(("prefix:op_token-vs-op_kind".into(), text()));
+                    }
+                    if let Some(e) = p.expr() {
+                        if t.text_range().end() > e.syntax().text_range().start() {
+                            out.push(("prefix:operator-not-before-operand".into(), text()));
+                        }
+                    }
+                }
+                (None, None) => {}
+                _ => out.push(("prefix:op-accessors-partial".into(), text())),
+            }
+        } else if let Some(ix) = ast::IndexExpr::cast(node.clone()) {
+            if !same(ix.base().as_ref().map(|x| x.syntax()), ix.expr().as_ref().map(|x| x.syntax())) {
+                out.push(("index:base-vs-expr".into(), text()));
+            }
+        } else if let Some(g) = ast::GateCallExpr::cast(node.clone()) {
+            if let (Some(n), Some(i)) = (g.name(), g.identifier()) {
+                if n.string() != i.string() {
+                    out.push(("gate-call:name-vs-identifier".into(), text()));
+                }
+            }
+        }
+    }
+    out
+}
